@@ -62,8 +62,14 @@ static void write_file(const std::string& path, const void* d, size_t n)
     fclose(f);
 }
 
+// present only in a coverage build (tools/coverage.sh): the driver leaves through _exit, which skips the
+// profile runtime's atexit handler
+extern "C" int __llvm_profile_write_file(void) __attribute__((weak));
+
 static void flush_report(const std::string& extra = "")
 {
+    if (__llvm_profile_write_file)
+        __llvm_profile_write_file();
     if (!g_out.empty())
     {
         std::string j = g_rep.to_json(extra);
